@@ -1,41 +1,51 @@
 -------------------------- MODULE TupleSetAbsTrace --------------------------
 (* Trace validation for C27: the recorded API history of a real souffle::Trie<Dim> must be a behaviour of          *)
-(* TupleSetAbs.  One TLC step per recorded event; histories of different tries are separated by "reset".          *)
-(*   [e |-> "call", c, t] [e |-> "ret", c, ok]   insert call / return of client c (call/return order as recorded) *)
-(*   [e |-> "contains"|"find", t, r] [e |-> "size", n] [e |-> "iter", s] [e |-> "bounds", k, t, s]               *)
+(* TupleSetAbs.  One TLC step per recorded event; histories of different tries are separated by "reset" events    *)
+(* and the trace ends with one more "reset".                                                                      *)
+(*   [e |-> "reset", tol]                          a new, empty trie; tol: the history has no overlapping calls   *)
+(*   [e |-> "call", c, t] [e |-> "ret", c, ok]     insert call / return of client c (call/return order recorded)  *)
+(*   [e |-> "contains", t, r] [e |-> "find", t, r] [e |-> "size", n] [e |-> "iter", s] [e |-> "bounds", k, t, s] *)
 (*   [e |-> "part", n, ch] [e |-> "lower"|"upper", t, r]                     queries, made while quiescent       *)
-(* An insert return that no linearization explains blocks the trace (rejection).  A query whose recorded answer   *)
-(* differs from the set model is reported with its position and the expected answer (PrintT "MISMATCH") and the   *)
-(* trace continues, so that one TLC run lists every deviating answer of a long history.                           *)
+(* Insert results: TLC follows every placement of the linearization points (TupleSetAbs!Ret is nondeterministic). *)
+(* A branch that cannot explain an insert result dies (dead = TRUE, "DIED" is printed with the event number) and   *)
+(* idles to the next "reset"; every "reset" reached by a live branch prints "ALIVE" with its event number.  A      *)
+(* history is accepted iff the reset that follows it is reported ALIVE - so one TLC run judges all histories.     *)
+(* In a history without overlapping calls (tol) RetPossible is exact; there an inexplicable insert result is       *)
+(* reported like a deviating query answer ("MISMATCH", event number, what the model says) and the history goes on *)
+(* with the tuple inserted, so that every deviating answer of a long sequential history is listed.                *)
 EXTENDS TupleSetAbs, TLC, TraceDataModule   \* TraceDataModule (generated) defines TraceData
-\* tol: set by "reset" ([e |-> "reset", tol |-> BOOLEAN]); TRUE only for histories without overlapping calls (there
-\* RetPossible is exact): an inexplicable insert result is reported like a deviating query answer and the trace continues
-\* with the tuple inserted
-VARIABLES l, tol
-tvars == <<S, pend, l, tol>>
-TInit == AInit /\ l = 1 /\ tol = FALSE
+VARIABLES l, tol, dead
+tvars == <<S, pend, l, tol, dead>>
+TInit == AInit /\ l = 1 /\ tol = FALSE /\ dead = FALSE
 Ev == TraceData[l]
+AllIdle == [c \in Clients |-> Idle]
 Report(ok, exp) == IF ok THEN TRUE ELSE PrintT(<<"MISMATCH", l, exp>>)
-Query == /\ Quiescent
-         /\ UNCHANGED avars
-         /\ CASE Ev.e = "contains" -> Report(Contains(Ev.t, Ev.r), ExpContains(Ev.t))
-              [] Ev.e = "find"     -> Report(Find(Ev.t, Ev.r), ExpFind(Ev.t))
-              [] Ev.e = "size"     -> Report(Size(Ev.n), ExpSize)
-              [] Ev.e = "iter"     -> Report(Iterate(Ev.s), S)
-              [] Ev.e = "bounds"   -> Report(Bounds(Ev.k, Ev.t, Ev.s), Prefixed(Ev.k, Ev.t))
-              [] Ev.e = "part"     -> Report(Partition(Ev.ch), S)
-              [] Ev.e = "lower"    -> Report(LowerBound(Ev.t, Ev.r), ExpLower(Ev.t))
-              [] Ev.e = "upper"    -> Report(UpperBound(Ev.t, Ev.r), ExpUpper(Ev.t))
+Die == PrintT(<<"DIED", l>>) /\ S' = {} /\ pend' = AllIdle /\ dead' = TRUE
+Query == /\ UNCHANGED <<S, pend, dead>>
+         /\ IF ~Quiescent THEN Report(FALSE, "query while an insertion is outstanding")
+            ELSE CASE Ev.e = "contains" -> Report(Contains(Ev.t, Ev.r), ExpContains(Ev.t))
+                   [] Ev.e = "find"     -> Report(Find(Ev.t, Ev.r), ExpFind(Ev.t))
+                   [] Ev.e = "size"     -> Report(Size(Ev.n), ExpSize)
+                   [] Ev.e = "iter"     -> Report(Iterate(Ev.s), S)
+                   [] Ev.e = "bounds"   -> Report(Bounds(Ev.k, Ev.t, Ev.s), Prefixed(Ev.k, Ev.t))
+                   [] Ev.e = "part"     -> Report(Partition(Ev.ch), S)
+                   [] Ev.e = "lower"    -> Report(LowerBound(Ev.t, Ev.r), ExpLower(Ev.t))
+                   [] Ev.e = "upper"    -> Report(UpperBound(Ev.t, Ev.r), ExpUpper(Ev.t))
 TNext == /\ l <= Len(TraceData)
          /\ l' = l + 1
-         /\ tol' = IF Ev.e = "reset" THEN Ev.tol ELSE tol
-         /\ CASE Ev.e = "reset" -> S' = {} /\ pend' = [c \in Clients |-> Idle]
-              [] Ev.e = "call"  -> Call(Ev.c, Ev.t)
-              [] Ev.e = "ret"   -> IF tol /\ ~RetPossible(Ev.c, Ev.ok)
-                                   THEN /\ Report(FALSE, <<"insert must report", pend[Ev.c].t \notin S>>)
-                                        /\ S' = S \cup {pend[Ev.c].t} /\ pend' = [pend EXCEPT ![Ev.c] = Idle]
-                                   ELSE Ret(Ev.c, Ev.ok)
-              [] OTHER          -> Query
+         /\ IF Ev.e = "reset"
+            THEN /\ (IF dead THEN TRUE ELSE PrintT(<<"ALIVE", l>>))
+                 /\ S' = {} /\ pend' = AllIdle /\ tol' = Ev.tol /\ dead' = FALSE
+            ELSE /\ tol' = tol
+                 /\ IF dead THEN UNCHANGED <<S, pend, dead>>
+                    ELSE CASE Ev.e = "call" -> IF pend[Ev.c].st = "idle" THEN Call(Ev.c, Ev.t) /\ dead' = FALSE ELSE Die
+                           [] Ev.e = "ret"  -> IF RetPossible(Ev.c, Ev.ok) THEN Ret(Ev.c, Ev.ok) /\ dead' = FALSE
+                                               ELSE IF tol
+                                               THEN /\ Report(FALSE, <<"insert must report", pend[Ev.c].t \notin S>>)
+                                                    /\ S' = S \cup {pend[Ev.c].t} /\ pend' = [pend EXCEPT ![Ev.c] = Idle]
+                                                    /\ dead' = FALSE
+                                               ELSE Die
+                           [] OTHER         -> Query
 TSpec == TInit /\ [][TNext]_tvars
 Accepted == TLCGet("stats").diameter - 1 = Len(TraceData)
 =============================================================================
